@@ -180,7 +180,13 @@ def classify(r, gm, gen_name=''):
                 obl = '%s@%s' % (label, h)
         else:
             obl = '%s.%s@%s' % (enc['fn'], slug(msg), h)
-        failures.append({'fn': enc['fn'], 'where': enc['where'], 'origin': enc['kind'], 'obligation': obl, 'label': label,
+        body_fn = None
+        for x in sec:
+            if 'end of the function body' in (x.get('label') or '') or 'at this exit' in (x.get('label') or ''):
+                e2 = gm.enclosing(x['line_start'])
+                if e2 and e2.get('fn') and e2['fn'] != enc['fn']:
+                    body_fn = e2['fn']   # a trait-level postcondition failed in this implementation
+        failures.append({'body_fn': body_fn, 'fn': enc['fn'], 'where': enc['where'], 'origin': enc['kind'], 'obligation': obl, 'label': label,
                          'kind': slug(msg), 'message': msg, 'line': ps['line_start'], 'text': ptxt[:600], 'sentinel': sent,
                          'spans': [{'l0': s['line_start'], 'l1': s['line_end'], 'primary': s.get('is_primary'), 'label': s.get('label'),
                                     'text': gm.text(s['line_start'], s['line_end'])[:300]} for s in spans],
